@@ -128,6 +128,9 @@ func (g *genCfg) pick(rng *rand.Rand, o, d *Obj) (Call, string) {
 	if g.fams["settings"] {
 		menu = append(menu, "SetID", "SetCategory", "SetDelimiter", "SetSymbol", "SetEncap")
 	}
+	if g.fams["aux"] {
+		menu = append(menu, "SetAuxiliary", "SetLogger")
+	}
 	for tries := 0; tries < 50; tries++ {
 		switch op := menu[rng.Intn(len(menu))]; op {
 		case "Push":
@@ -243,6 +246,10 @@ func (g *genCfg) pick(rng *rand.Rand, o, d *Obj) (Call, string) {
 				xs = append(xs, g.val(rng, true))
 			}
 			return Call{"op": "Marshal", "kind": allKinds[rng.Intn(5)], "xs": xs}, "st"
+		case "SetAuxiliary":
+			return Call{"op": "SetAuxiliary", "form": []string{"none", "nil", "map"}[rng.Intn(3)]}, "st"
+		case "SetLogger":
+			return Call{"op": "SetLogger", "arg": []string{"stdout", "STDOUT", "int1", "stderr", "StdErr", "int2", "custom", "off", "discard", "int0", "nil", "junk", "int7"}[rng.Intn(13)]}, "st"
 		case "SetID":
 			return Call{"op": "SetID", "v": []string{"", "x", "some id", "Y_1", "_random", "_RANDOM", "_addr"}[rng.Intn(7)]}, "st"
 		case "SetCategory":
